@@ -15,7 +15,7 @@ pub fn def() -> PropDef {
         generate,
         check,
         nontrivial,
-        rule: "C01's client programs with concurrent calls from 1-4 clients through all handle kinds plus one termination cause (stop, halt, try_stop, Context::stop, consume, last strong handle dropped, started error, handler panic, timeout failure, task cancellation before the j-th poll or at a global step) at a random position, awaiters and joins; x seeded schedules; non-trivial = two calls were pending at once or the actor died with a call/ping pending; distinct = distinct order of client-op and callback events",
+        rule: "(5/6) C01's client programs with concurrent calls from 1-4 clients through all handle kinds plus one termination cause (stop, halt, try_stop, Context::stop, consume, last strong handle dropped, started error, handler panic, timeout failure, task cancellation before the j-th poll or at a global step) at a random position, awaiters and joins; (1/6) C13's programs against stream-attached actors incl. saturated streams; x seeded schedules; non-trivial = two calls were pending at once or the actor died with a call/ping pending; distinct = distinct order of client-op and callback events",
         needed_probes: &["c02_reply_checked", "call_pending_at_death", "c02_op_after_death_checked"],
         quick_runs: 100_000,
         thorough_runs: 2_000_000,
@@ -42,7 +42,12 @@ pub const CAUSES: [Cause; 13] = [
     Cause::CancelStep,
 ];
 
-pub fn generate(g: &mut G, _index: u64) -> Scenario {
+pub fn generate(g: &mut G, index: u64) -> Scenario {
+    // a sixth of the programs talk to stream-attached actors (incl. saturated streams): their
+    // calls, pings, halts and awaits must resolve just the same
+    if g.chance(1, 6) {
+        return super::c13::generate(g, index);
+    }
     let cause = g.pick(&CAUSES);
     let owning = g.chance(1, 2);
     let spec = ActorSpec {
